@@ -1147,3 +1147,214 @@ Lemma fr_w_bracket_facts :
   fr_valid_hostname_strict [91;58;58;49;120]%N = false /\ htp_validate_hostname [91;58;58;49;120]%N = true /\
   fr_check_host_text (Some [91;58;58;49;120]%N) (t_flags t) = false.
 Proof. vm_compute. repeat split; reflexivity. Qed.
+
+(* ================================================================ the header parser strips the optional whitespace *)
+Definition fr_is_eol (e : bytes) : bool :=
+  match e with [] => true | [a] => (a =? LF)%N | [a; b] => (a =? CR)%N && (b =? LF)%N | _ => false end.
+Definition fr_not_crlf (c : N) : bool := negb (c =? CR)%N && negb (c =? LF)%N.
+
+Lemma fr_chomp_rev_keep r : (match r with [] => True | c :: _ => fr_not_crlf c = true end) -> rq_chomp_rev r = r.
+Proof.
+  destruct r as [|c r]; [reflexivity|]. unfold fr_not_crlf. intros H. apply andb_prop in H as [H1 H2].
+  apply negb_true_iff in H1. apply negb_true_iff in H2. cbn. rewrite H2, H1. reflexivity.
+Qed.
+Lemma fr_rev_append_rev {A} (l acc : list A) : rev_append l acc = rev l ++ acc.
+Proof. apply rev_append_rev. Qed.
+
+(* chomp removes the line terminator when what precedes it does not end in CR or LF *)
+Lemma fr_chomp_eol s e : fr_is_eol e = true -> (match rev s with [] => True | c :: _ => fr_not_crlf c = true end) ->
+  htp_chomp (s ++ e) = s.
+Proof.
+  intros He Hs. unfold htp_chomp. rewrite !fr_rev_append_rev, !app_nil_r, rev_app_distr.
+  assert (X : rq_chomp_rev (rev e ++ rev s) = rev s).
+  { destruct e as [|a [|b [|c e]]]; cbn in He; try discriminate.
+    - cbn. apply fr_chomp_rev_keep. exact Hs.
+    - apply N.eqb_eq in He. subst a. cbn [rev app]. change (rq_chomp_rev (LF :: rev s)) with
+        (match rev s with [] => [] | y :: r2 => if (y =? CR)%N then rq_chomp_rev r2 else rq_chomp_rev (rev s) end).
+      destruct (rev s) as [|y r2] eqn:E; [reflexivity|].
+      unfold fr_not_crlf in Hs. apply andb_prop in Hs as [H1 H2]. apply negb_true_iff in H1. rewrite H1.
+      apply fr_chomp_rev_keep. unfold fr_not_crlf. rewrite H1. exact H2.
+    - apply andb_prop in He as [H1 H2]. apply N.eqb_eq in H1. apply N.eqb_eq in H2. subst a b. cbn [rev app].
+      change (rq_chomp_rev (LF :: CR :: rev s)) with (rq_chomp_rev (rev s)).
+      apply fr_chomp_rev_keep. exact Hs. }
+  rewrite X. apply rev_involutive.
+Qed.
+
+Definition fr_lastok (l : bytes) : Prop := match rev l with [] => True | c :: _ => fr_not_crlf c = true end.
+Lemma fr_lastok_app a b : fr_lastok b -> (b = [] -> fr_lastok a) -> fr_lastok (a ++ b).
+Proof.
+  unfold fr_lastok. rewrite rev_app_distr. intros Hb Ha. destruct (rev b) as [|c r] eqn:E; cbn.
+  - apply Ha. apply (f_equal (@rev N)) in E. rewrite rev_involutive in E. exact E.
+  - exact Hb.
+Qed.
+Lemma fr_lastok_all l : forallb fr_not_crlf l = true -> fr_lastok l.
+Proof.
+  unfold fr_lastok. intros H. destruct (rev l) as [|c r] eqn:E; [exact I|].
+  rewrite forallb_forall in H. apply H. apply in_rev. rewrite E. left. reflexivity.
+Qed.
+
+(* byte facts about the classes involved *)
+Lemma fr_tbool_byte t c : length t = 256%nat -> tbool t c = true -> (c < 256)%N.
+Proof.
+  intros L H. destruct (N.ltb_spec c 256) as [X|X]; [exact X|].
+  unfold tbool in H. rewrite tget_overflow in H by (rewrite L; exact X). discriminate.
+Qed.
+Lemma fr_lws_facts c : htp_is_lws c = true -> fr_not_crlf c = true /\ (c =? 0)%N = false /\ (c =? 58)%N = false.
+Proof.
+  intros H. assert (L : (c < 256)%N) by (apply (fr_tbool_byte t_htp_is_lws); [reflexivity|exact H]).
+  assert (S : forall b, (b < 256)%N -> (negb (htp_is_lws b) || (fr_not_crlf b && negb (b =? 0)%N && negb (b =? 58)%N)) = true)
+    by (apply byte_sweep; vm_compute; reflexivity).
+  specialize (S c L). rewrite H in S. cbn [negb orb] in S. apply andb_prop in S as [S S3]. apply andb_prop in S as [S1 S2].
+  apply negb_true_iff in S2. apply negb_true_iff in S3. auto.
+Qed.
+Lemma fr_token_facts c : htp_is_token c = true -> htp_is_lws c = false /\ (c =? 0)%N = false /\ (c =? 58)%N = false.
+Proof.
+  intros H. assert (L : (c < 256)%N) by (apply (fr_tbool_byte t_htp_is_token); [reflexivity|exact H]).
+  assert (S : forall b, (b < 256)%N -> (negb (htp_is_token b) || (negb (htp_is_lws b) && negb (b =? 0)%N && negb (b =? 58)%N)) = true)
+    by (apply byte_sweep; vm_compute; reflexivity).
+  specialize (S c L). rewrite H in S. cbn [negb orb] in S. apply andb_prop in S as [S S3]. apply andb_prop in S as [S1 S2].
+  apply negb_true_iff in S1. apply negb_true_iff in S2. apply negb_true_iff in S3. auto.
+Qed.
+
+Lemma fr_fwd_exact p : forall a b n pos, forallb p a = true -> (match b with [] => True | c :: _ => p c = false end) ->
+  (length a <= n)%nat -> rq_fwd p (a ++ b) n pos = (pos + length a)%nat.
+Proof.
+  induction a as [|x a IH]; intros b n pos Ha Hb Hn.
+  - cbn [app length]. rewrite Nat.add_0_r. destruct b as [|c b]; destruct n; try reflexivity. cbn. rewrite Hb. reflexivity.
+  - cbn in Ha. apply andb_prop in Ha as [H1 H2]. destruct n as [|n]; [cbn in Hn; lia|].
+    cbn [app rq_fwd length]. rewrite H1, (IH b n (S pos) H2 Hb) by (cbn in Hn; lia). lia.
+Qed.
+Lemma fr_at_app_r (a b : bytes) i : rq_at (a ++ b) (length a + i) = rq_at b i.
+Proof. unfold rq_at. rewrite app_nth2 by lia. f_equal. lia. Qed.
+Lemma fr_at_app_l (a b : bytes) i : (i < length a)%nat -> rq_at (a ++ b) i = rq_at a i.
+Proof. unfold rq_at. intros H. apply app_nth1. exact H. Qed.
+Lemma fr_at_last (a : bytes) c : rq_at (a ++ [c]) (length a) = c.
+Proof. unfold rq_at. rewrite app_nth2 by lia. rewrite Nat.sub_diag. reflexivity. Qed.
+
+Lemma fr_name_end_exact nm c : htp_is_lws c = false -> forall pre rest, forallb htp_is_lws pre = true ->
+  rq_name_end ((nm ++ [c]) ++ pre ++ rest) (length (nm ++ [c]) + length pre) = length (nm ++ [c]).
+Proof.
+  intros Hc. induction pre as [|x pre IH] using rev_ind; intros rest Hp.
+  - cbn [length app]. rewrite Nat.add_0_r, app_length. cbn [length]. rewrite Nat.add_1_r. cbn [rq_name_end].
+    rewrite fr_at_app_l by (rewrite app_length; cbn; lia). rewrite fr_at_last, Hc. reflexivity.
+  - rewrite forallb_app in Hp. apply andb_prop in Hp as [Hp Hx]. cbn in Hx. rewrite andb_true_r in Hx.
+    rewrite (app_length pre [x]). cbn [length]. rewrite Nat.add_1_r, Nat.add_succ_r. cbn [rq_name_end].
+    rewrite fr_at_app_r. 
+    replace (rq_at ((pre ++ [x]) ++ rest) (length pre)) with x.
+    + rewrite Hx. replace ((nm ++ [c]) ++ (pre ++ [x]) ++ rest) with ((nm ++ [c]) ++ pre ++ ([x] ++ rest)) by (rewrite <- (app_assoc pre); reflexivity).
+      apply IH. exact Hp.
+    + rewrite <- app_assoc. unfold rq_at. rewrite app_nth2 by lia. rewrite Nat.sub_diag. reflexivity.
+Qed.
+
+Lemma fr_value_end_exact A v c : htp_is_lws c = false -> forall ows tail n, forallb htp_is_lws ows = true ->
+  (length ows <= n)%nat ->
+  rq_value_end (A ++ (v ++ [c]) ++ ows ++ tail) n (length A + length (v ++ [c]) + length ows) (length A) =
+  (length A + length (v ++ [c]))%nat.
+Proof.
+  intros Hc. induction ows as [|x ows IH] using rev_ind; intros tail n Ho Hn.
+  - cbn [length]. rewrite Nat.add_0_r. destruct n as [|n]; [reflexivity|]. cbn [rq_value_end].
+    replace (rq_at (A ++ (v ++ [c]) ++ [] ++ tail) (length A + length (v ++ [c]) - 1)) with c.
+    + rewrite Hc, andb_false_r. reflexivity.
+    + rewrite app_length. cbn [length]. replace (length A + (length v + 1) - 1)%nat with (length A + length v)%nat by lia.
+      rewrite fr_at_app_r. rewrite <- app_assoc. rewrite <- (Nat.add_0_r (length v)). rewrite fr_at_app_r. reflexivity.
+  - rewrite forallb_app in Ho. apply andb_prop in Ho as [Ho Hx]. cbn in Hx. rewrite andb_true_r in Hx.
+    rewrite (app_length ows [x]) in *. cbn [length] in *. destruct n as [|n]; [lia|]. cbn [rq_value_end].
+    replace (length A + length (v ++ [c]) + (length ows + 1) - 1)%nat with (length A + length (v ++ [c]) + length ows)%nat by lia.
+    replace (rq_at (A ++ (v ++ [c]) ++ (ows ++ [x]) ++ tail) (length A + length (v ++ [c]) + length ows)) with x.
+    + rewrite Hx.
+      replace (length A <? length A + length (v ++ [c]) + length ows)%nat with true
+        by (symmetry; apply Nat.ltb_lt; rewrite app_length; cbn; lia).
+      cbn [andb].
+      replace (A ++ (v ++ [c]) ++ (ows ++ [x]) ++ tail) with (A ++ (v ++ [c]) ++ ows ++ ([x] ++ tail)) by (rewrite <- (app_assoc ows); reflexivity).
+      apply IH; [exact Ho|lia].
+    + rewrite <- Nat.add_assoc, fr_at_app_r, fr_at_app_r. rewrite <- app_assoc. rewrite <- (Nat.add_0_r (length ows)). rewrite fr_at_app_r. reflexivity.
+Qed.
+
+Definition fr_value_ok (value : bytes) : Prop :=
+  match value with [] => True | c :: _ => htp_is_lws c = false end /\
+  match rev value with [] => True | c :: _ => htp_is_lws c = false /\ fr_not_crlf c = true end.
+
+Theorem fr_header_roundtrip name value pre ows1 ows2 eol :
+  name <> [] -> forallb htp_is_token name = true -> fr_value_ok value ->
+  forallb htp_is_lws pre = true -> forallb htp_is_lws ows1 = true -> forallb htp_is_lws ows2 = true -> fr_is_eol eol = true ->
+  fr_field_of_line (name ++ pre ++ [58%N] ++ ows1 ++ value ++ ows2 ++ eol) = (name, value).
+Proof.
+  intros Hne Htok [Hv1 Hv2] Hpre Ho1 Ho2 Heol.
+  assert (Hlws_nc : forall l, forallb htp_is_lws l = true -> forallb fr_not_crlf l = true).
+  { intros l H. rewrite forallb_forall in *. intros x Hx. apply (fr_lws_facts x (H x Hx)). }
+  set (d := name ++ pre ++ [58%N] ++ ows1 ++ value ++ ows2).
+  assert (Hd : htp_chomp (name ++ pre ++ [58%N] ++ ows1 ++ value ++ ows2 ++ eol) = d).
+  { replace (name ++ pre ++ [58%N] ++ ows1 ++ value ++ ows2 ++ eol) with (d ++ eol) by (subst d; rewrite <- !app_assoc; reflexivity).
+    apply fr_chomp_eol; [exact Heol|]. subst d.
+    change (fr_lastok (name ++ pre ++ [58%N] ++ ows1 ++ value ++ ows2)).
+    assert (L4 : fr_lastok (value ++ ows2)).
+    { apply fr_lastok_app; [apply fr_lastok_all, Hlws_nc, Ho2|intros _]. unfold fr_lastok. destruct (rev value); [exact I|apply Hv2]. }
+    assert (L3 : fr_lastok (ows1 ++ value ++ ows2)).
+    { apply fr_lastok_app; [exact L4|intros _]. apply fr_lastok_all, Hlws_nc, Ho1. }
+    assert (L2 : fr_lastok ([58%N] ++ ows1 ++ value ++ ows2)).
+    { apply fr_lastok_app; [exact L3|intros _]. unfold fr_lastok. cbn. reflexivity. }
+    apply fr_lastok_app; [|intros E; apply app_eq_nil in E as [_ E]; discriminate].
+    apply fr_lastok_app; [exact L2|intros E; discriminate]. }
+  unfold fr_field_of_line, htp_parse_request_header_generic. rewrite Hd. clear Hd. cbv zeta.
+  set (P := fun b : N => (negb (b =? 0)%N && negb (b =? 58)%N)%bool).
+  set (cp := (length name + length pre)%nat).
+  set (tailv := ows1 ++ value ++ ows2).
+  assert (Ed : d = (name ++ pre) ++ [58%N] ++ tailv) by (subst d tailv; rewrite <- !app_assoc; reflexivity).
+  assert (Elen : length d = (cp + 1 + length tailv)%nat) by (rewrite Ed, !app_length; cbn; subst cp; lia).
+  assert (HP : forallb P (name ++ pre) = true).
+  { rewrite forallb_app. apply andb_true_intro. split; apply forallb_forall; intros x Hx; unfold P.
+    - rewrite forallb_forall in Htok. destruct (fr_token_facts x (Htok x Hx)) as [_ [A B]]. rewrite A, B. reflexivity.
+    - rewrite forallb_forall in Hpre. destruct (fr_lws_facts x (Hpre x Hx)) as [_ [A B]]. rewrite A, B. reflexivity. }
+  assert (Ecp : rq_fwd_while P d 0 (length d) = cp).
+  { unfold rq_fwd_while. cbn [skipn]. rewrite Nat.sub_0_r. rewrite Ed at 1.
+    rewrite (fr_fwd_exact P (name ++ pre) ([58%N] ++ tailv) (length d) 0 HP); [rewrite app_length; reflexivity|reflexivity|].
+    rewrite Elen, app_length. subst cp. lia. }
+  rewrite Ecp.
+  assert (Eat : rq_at d cp = 58%N).
+  { rewrite Ed. subst cp. rewrite <- app_length. rewrite <- (Nat.add_0_r (length (name ++ pre))). rewrite fr_at_app_r. reflexivity. }
+  rewrite Eat.
+  replace (cp =? length d)%nat with false by (symmetry; apply Nat.eqb_neq; lia).
+  cbn [orb N.eqb]. 
+  destruct (exists_last Hne) as [nm [c Enm]].
+  assert (Hc : htp_is_lws c = false).
+  { rewrite forallb_forall in Htok. apply (fr_token_facts c). apply Htok. rewrite Enm. apply in_or_app. right. left. reflexivity. }
+  assert (Ene : rq_name_end d cp = length name).
+  { subst cp. rewrite Ed, Enm. rewrite <- (app_assoc (nm ++ [c]) pre). apply fr_name_end_exact; assumption. }
+  rewrite Ene.
+  replace (cp <? length d)%nat with true by (symmetry; apply Nat.ltb_lt; lia).
+  assert (Eskip : skipn (S cp) d = tailv).
+  { rewrite Ed. replace (S cp) with (length (name ++ pre) + 1)%nat by (rewrite app_length; subst cp; lia).
+    rewrite skipn_app, skipn_all2 by lia. replace (length (name ++ pre) + 1 - length (name ++ pre))%nat with 1%nat by lia. reflexivity. }
+  assert (Ename : rq_sub d 0 (length name) = name).
+  { unfold rq_sub. cbn [skipn]. rewrite Nat.sub_0_r. subst d. rewrite firstn_app, Nat.sub_diag, firstn_all. cbn. apply app_nil_r. }
+  cbn [fst h_name h_value]. rewrite Ename. f_equal.
+  unfold rq_fwd_while. rewrite Eskip.
+  assert (Hcase : value = [] \/ value <> []) by (destruct value; [left; reflexivity|right; discriminate]).
+  destruct Hcase as [Eval|Hvne].
+  - (* empty value *)
+    subst value.
+    assert (Hall : forallb htp_is_lws tailv = true) by (subst tailv; cbn [app]; rewrite forallb_app, Ho1, Ho2; reflexivity).
+    assert (Efw : rq_fwd htp_is_lws tailv (length d - S cp) (S cp) = length d).
+    { pose proof (fr_fwd_exact htp_is_lws tailv [] (length d - S cp) (S cp) Hall I) as X. rewrite app_nil_r in X. rewrite X; lia. }
+    rewrite Efw.
+    assert (Eve : rq_value_end d (length d) (length d) (length d) = length d).
+    { destruct (length d) as [|n] eqn:E; [reflexivity|]. cbn [rq_value_end].
+      replace (S n <? S n - 1)%nat with false by (symmetry; apply Nat.ltb_ge; lia). reflexivity. }
+    rewrite Eve. unfold rq_sub. rewrite Nat.sub_diag. reflexivity.
+  - destruct (exists_last Hvne) as [v [cv Ev]].
+    assert (Hcv : htp_is_lws cv = false) by (rewrite Ev, rev_app_distr in Hv2; cbn in Hv2; apply Hv2).
+    assert (Hhd : match value ++ ows2 with [] => True | x :: _ => htp_is_lws x = false end) by (destruct value; [congruence|exact Hv1]).
+    subst tailv.
+    rewrite (fr_fwd_exact htp_is_lws ows1 (value ++ ows2) (length d - S cp) (S cp) Ho1 Hhd) by (rewrite Elen, !app_length; lia).
+    set (A := name ++ pre ++ [58%N] ++ ows1).
+    assert (EA : (S cp + length ows1)%nat = length A) by (subst A cp; rewrite !app_length; cbn; lia).
+    assert (Ed2 : d = A ++ (v ++ [cv]) ++ ows2 ++ []) by (subst d A; rewrite <- Ev, app_nil_r, <- !app_assoc; reflexivity).
+    assert (Elen2 : length d = (length A + length (v ++ [cv]) + length ows2)%nat) by (rewrite Ed2, !app_length; cbn; lia).
+    rewrite EA.
+    assert (Eve : rq_value_end d (length d) (length d) (length A) = (length A + length (v ++ [cv]))%nat).
+    { rewrite Elen2 at 2. rewrite Ed2 at 1. apply fr_value_end_exact; [exact Hcv|exact Ho2|lia]. }
+    rewrite Eve. unfold rq_sub.
+    replace (length A + length (v ++ [cv]) - length A)%nat with (length (v ++ [cv])) by lia.
+    rewrite Ed2, skipn_app, skipn_all, Nat.sub_diag. cbn [skipn app].
+    rewrite firstn_app, Nat.sub_diag, firstn_all. cbn [firstn]. rewrite app_nil_r. symmetry. exact Ev.
+Qed.
